@@ -233,8 +233,8 @@ func (s *Solver) CheckWith(extra *Term) SatResult {
 
 func (s *Solver) check() SatResult { return s.checkSat() }
 
-// ModelWith returns values for the given variables in a model of the path
-// constraints and extra (which must be satisfiable).
+// ModelWith returns values for the given terms in a model of the path
+// constraints and extra.
 func (s *Solver) ModelWith(extra *Term, vars []*Term) (map[string]uint64, SatResult) {
 	n := s.define(extra)
 	names := make([]string, 0, len(vars))
@@ -245,30 +245,112 @@ func (s *Solver) ModelWith(extra *Term, vars []*Term) (map[string]uint64, SatRes
 	s.send("(assert " + n + ")")
 	r := s.checkSat()
 	var m map[string]uint64
-	if r == Sat && len(names) > 0 {
+	if r == Sat {
 		m = map[string]uint64{}
-		for i, nm := range names {
-			s.send("(get-value (" + nm + "))")
-			line, err := s.readLine()
-			if err != nil {
-				r = Unknown
-				break
-			}
-			// ((name #x00..)) or ((name #b0101)) or ((name true))
-			v, ok := parseValue(line)
+		if len(names) > 0 {
+			vals, ok := s.getValues(names)
 			if !ok {
 				r = Unknown
-				break
+			} else {
+				for i, nm := range names {
+					key := nm
+					if vars[i].op == "var" {
+						key = vars[i].name
+					}
+					m[key] = vals[i]
+				}
 			}
-			key := nm
-			if vars[i].op == "var" {
-				key = vars[i].name
-			}
-			m[key] = v
 		}
 	}
 	s.send("(pop 1)")
 	return m, r
+}
+
+// getValues issues one get-value for all names and parses the
+// (possibly multi-line) answer.
+func (s *Solver) getValues(names []string) ([]uint64, bool) {
+	s.send("(get-value (" + strings.Join(names, " ") + "))")
+	var sb strings.Builder
+	depth := 0
+	started := false
+	for {
+		line, err := s.readLine()
+		if err != nil {
+			return nil, false
+		}
+		if strings.HasPrefix(line, "(error") {
+			s.sawError = true
+			return nil, false
+		}
+		sb.WriteString(line)
+		sb.WriteByte(' ')
+		for _, c := range line {
+			if c == '(' {
+				depth++
+				started = true
+			} else if c == ')' {
+				depth--
+			}
+		}
+		if started && depth <= 0 {
+			break
+		}
+	}
+	text := sb.String()
+	// tokens: pairs "(name value)"; values are #x.. #b.. true false or (_ bvN w)
+	vals := make([]uint64, 0, len(names))
+	i := strings.Index(text, "(")
+	text = text[i+1:]
+	for len(vals) < len(names) {
+		j := strings.Index(text, "(")
+		if j < 0 {
+			return nil, false
+		}
+		text = text[j+1:]
+		// skip the name
+		k := strings.IndexAny(text, " \t")
+		if k < 0 {
+			return nil, false
+		}
+		text = strings.TrimLeft(text[k:], " \t")
+		var v uint64
+		switch {
+		case strings.HasPrefix(text, "#x"):
+			e := strings.IndexAny(text, ") ")
+			if _, err := fmt.Sscanf(text[2:e], "%x", &v); err != nil {
+				return nil, false
+			}
+			text = text[e:]
+		case strings.HasPrefix(text, "#b"):
+			e := strings.IndexAny(text, ") ")
+			for _, c := range text[2:e] {
+				v = v<<1 | uint64(c-'0')
+			}
+			text = text[e:]
+		case strings.HasPrefix(text, "true"):
+			v = 1
+			text = text[4:]
+		case strings.HasPrefix(text, "false"):
+			v = 0
+			text = text[5:]
+		case strings.HasPrefix(text, "(_ bv"):
+			var w int
+			if _, err := fmt.Sscanf(text, "(_ bv%d %d)", &v, &w); err != nil {
+				return nil, false
+			}
+			e := strings.Index(text, ")")
+			text = text[e+1:]
+		default:
+			return nil, false
+		}
+		e := strings.Index(text, ")")
+		if e < 0 {
+			return nil, false
+		}
+		text = text[e+1:]
+		vals = append(vals, v)
+	}
+	return vals, true
 }
 
 func parseValue(line string) (uint64, bool) {
